@@ -111,7 +111,7 @@ dispatch_time(dispatch_time_t inval, int64_t delta)
 				return DISPATCH_TIME_FOREVER; // overflow
 			}
 		} else {
-			if ((int64_t)(value += offset) < 1) {
+			if ((int64_t)(value += offset) <= 1) {
 				// -1 is special == DISPATCH_TIME_FOREVER == forever, so
 				// return -2 (after conversion to dispatch_time_t) instead.
 				value = 2; // underflow.
